@@ -592,6 +592,29 @@ def parse_occ_answer(ans):
     return occs, toks
 
 
+def focus_texts(focus):
+    """texts behind the correspondence disagreements (shrunk form preferred): the oracle looks at them first"""
+    out = []
+    for d in focus or []:
+        r = d.get("shrunk") or d.get("request") or ""
+        f = r.split("\t")
+        try:
+            if f[0] == "tok":
+                out.append((None, unesc(f[1])))
+            elif f[0] in ("text", "occ"):
+                out.append((f[1].split(":")[-1], unesc(f[3])))
+            elif f[0] == "val":
+                out.append((f[1].split(":")[-1], unesc(f[2])))
+            elif f[0] == "scan":
+                out.append((f[1].split(":")[-1], " ".join(unesc(x.split(",")[0]) for x in f[3].split(" ") if x)))
+            elif f[0] in ("apply", "applydec"):
+                st = f[3].split("|")
+                out.append((f[1].split(":")[-1], "__apply__:%s:%s" % (unesc(f[2]), f[3])))
+        except Exception:
+            pass
+    return out
+
+
 ALL_THR = [t2nlib.thr_bits(x) for x in (float("-inf"), -1.0, 0.0, 0.5, 1.0, 5.0, 9.0, 10.0, 10.5, 1e9, float("inf"), float("nan"))]
 THR0 = "0000000000000000"
 
@@ -613,7 +636,8 @@ def oracle_c02(ctx, focus):
             if rng.chance(1, 5):
                 t = t + rng.choice([" ", "\n", ".", "!", " -", "'"])
             texts.append(t)
-        texts += ["", " ", "-", "--", "...", "a", "日本語", "no numbers here, at all."]
+        texts += ["", " ", "-", "--", "...", "a", "日本語", "no numbers here, at all.", "pre- and post-war", "wait-- what?", "l'- a", "x-", "x'", "x-'y"]
+        texts = [t for (l, t) in focus_texts(focus) if (l in (None, lang)) and not t.startswith("__apply__")] + texts
         for t in texts:
             th = rng.choice(ALL_THR)
             reqs += ["tok\t" + esc(t), "occ\t%s\t%s\t%s" % (lang, th, esc(t)), "text\t%s\t%s\t%s" % (lang, th, esc(t))]
@@ -728,6 +752,24 @@ def oracle_c03(ctx, focus):
         inputs.append("".join(rng.choice(words) for _ in range(300)))
         for _ in range(300 if ctx.tier != "thorough" else 5000):
             inputs.append(streams.random_text(rng, lang, 1 + rng.below(8)))
+        # many spoken zeros before / after / between numbers (length and emptiness predicates count them)
+        bank = phrase_bank(ctx, lang)
+        zw = {"en": "zero", "fr": "zéro", "es": "cero", "pt": "zero", "it": "zero", "de": "null", "nl": "nul"}[lang]
+        for k in (1, 2, 3, 4, 7, 12):
+            for ph in bank[:: max(1, len(bank) // (12 if ctx.tier != "thorough" else 120))]:
+                inputs.append(" ".join([zw] * k + [ph]))
+                inputs.append(ph + " " + " ".join([zw] * k))
+        inputs += [t for (l, t) in focus_texts(focus) if l in (None, lang) and not t.startswith("__apply__")]
+        # builder states behind disagreeing `apply` requests: replay them as text (zeros, then digits are not
+        # reconstructible in general) — at least the word after k zeros
+        for (l, t) in focus_texts(focus):
+            if l == lang and t.startswith("__apply__"):
+                _, w, st = t.split(":", 2)
+                stf = st.split("|")
+                try:
+                    inputs.append(" ".join([zw] * int(stf[1]) + [w]))
+                except Exception:
+                    pass
         for pref in ("", "L:"):
             for t in inputs:
                 reqs.append("val\t%s%s\t%s" % (pref, lang, esc(t)))
@@ -894,9 +936,19 @@ def oracle_c07(ctx, focus):
             streams_.append([w.lower() for w in ws if w])
         # phase 1: scan each stream (threshold 0, no annotation: plain tokens), validate the whole phrase
         reqs = []
+        hinted = []
         for ws in streams_:
-            toks = " ".join("%s,%s" % (esc(w), esc(w)) for w in ws)
-            reqs.append("scan\t%s\t%s\t%s" % (lang, THR0, toks))
+            # a third of the streams carry pause hints (nt_separated) at random positions: the clauses about spans
+            # and about words left spelled out must hold with hints too
+            gaps = [1 if (rng.chance(1, 3) and j > 0) else 0 for j in range(len(ws))] if rng.chance(1, 3) else [0] * len(ws)
+            hinted.append(any(gaps))
+            t_, parts = 0, []
+            for w, g in zip(ws, gaps):
+                if g:
+                    t_ += 200
+                parts.append("%s,%s,0,%d,%d" % (esc(w), esc(w), t_, t_ + 10))
+                t_ += 10
+            reqs.append("scan\t%s\t%s\t%s" % (lang, THR0, " ".join(parts)))
             reqs.append("val\t%s\t%s" % (lang, esc(" ".join(ws))))
         outs = run_impl(ctx, "c07a" + lang, reqs)
         # phase 2: validate the words of every non-decimal span, and every unconverted word
@@ -922,7 +974,7 @@ def oracle_c07(ctx, focus):
                     continue          # decimal occurrence
                 reqs2.append("val\t%s\t%s" % (lang, esc(" ".join(ws[s:e]))))
                 meta2.append(("span", ws, (s, e, text), reqs[2 * i]))
-            if va.startswith("OK:"):
+            if va.startswith("OK:") and not hinted[i]:
                 d = unesc(va[3:])
                 if len(occs) != 1 or occs[0][2] != d:
                     failures.append(fail(" ".join(ws), "scanner: %s" % sc.split("|")[0], "one occurrence with text %s" % d,
